@@ -375,6 +375,10 @@ inline bool do_decode_resize(std::vector<T>& v, const uint8_t*& pos, const uint8
     {
         return false;
     }
+    if (n > size_t(end - pos))
+    {
+        return false;
+    }
     v.resize(n);
     return true;
 }
